@@ -1,10 +1,58 @@
 //! Operations on sylvia's own runtime library that need no generated program.
 
+use cosmwasm_std::{Empty, Response};
 use serde_json::{json, Value};
+use std::panic::{catch_unwind, AssertUnwindSafe};
+use sylvia::into_response::IntoResponse;
+
+fn run_n<const N: usize>(lists: &[Vec<String>]) -> bool {
+    let refs: Vec<Vec<&str>> = lists.iter().map(|l| l.iter().map(|s| s.as_str()).collect()).collect();
+    let mut arr: [&[&str]; N] = [&[]; N];
+    for (i, r) in refs.iter().enumerate() {
+        arr[i] = r.as_slice();
+    }
+    catch_unwind(AssertUnwindSafe(|| sylvia::utils::assert_no_intersection(arr))).is_err()
+}
+
+/// `true` = the overlap check panicked on this tuple of lists.
+fn no_intersection(lists: &[Vec<String>]) -> Value {
+    let p = match lists.len() {
+        0 => run_n::<0>(lists),
+        1 => run_n::<1>(lists),
+        2 => run_n::<2>(lists),
+        3 => run_n::<3>(lists),
+        4 => run_n::<4>(lists),
+        5 => run_n::<5>(lists),
+        6 => run_n::<6>(lists),
+        7 => run_n::<7>(lists),
+        8 => run_n::<8>(lists),
+        _ => return json!("too-many"),
+    };
+    json!(p)
+}
 
 pub fn call(op: &str, a: &Value) -> Option<Value> {
     match op {
         "ping" => Some(json!({"res": {"ok": a.get("x").cloned().unwrap_or(Value::Null)}})),
+        "no_intersection_many" => {
+            let tuples: Vec<Vec<Vec<String>>> = serde_json::from_value(a["tuples"].clone()).expect("tuples");
+            let out: Vec<Value> = tuples.iter().map(|t| no_intersection(t)).collect();
+            Some(json!({"res": {"ok": out}}))
+        }
+        // IntoResponse::<MyMsg> on a Response<Empty> given as JSON
+        "into_response" => {
+            let text = a["resp"].as_str().expect("resp");
+            let r: Response<Empty> = match cosmwasm_std::from_json(text.as_bytes()) {
+                Ok(r) => r,
+                Err(e) => return Some(json!({"res": {"dec_err": e.to_string()}})),
+            };
+            let input = serde_json::to_value(&r).unwrap();
+            let out: Result<Response<crate::MyMsg>, _> = r.into_response();
+            Some(match out {
+                Ok(o) => json!({"res": {"ok": {"input": input, "output": serde_json::to_value(&o).unwrap()}}}),
+                Err(e) => json!({"res": {"err": {"input": input, "display": e.to_string()}}}),
+            })
+        }
         _ => None,
     }
 }
